@@ -34,6 +34,18 @@ func (h *c09H) Val1(a int) int {
 	h.hit(1)
 	return a + 1000
 }
+
+// Slow1 is Val1 with a parameter that takes a moment to decode (the request is "being prepared" for a while after it was accepted).
+type c09Slow struct{ V int }
+
+func (s *c09Slow) UnmarshalJSON(b []byte) error {
+	time.Sleep(300 * time.Microsecond)
+	return json.Unmarshal(b, &s.V)
+}
+func (h *c09H) Slow1(a c09Slow) int {
+	h.hit(1)
+	return a.V + 1000
+}
 func (h *c09H) Err0() error         { h.hit(1); return errors.New("handler error") }
 func (h *c09H) Both0() (int, error) { h.hit(1); return 7, errors.New("both") }
 func (h *c09H) Panic0()             { h.hit(1); panic("boom") }
@@ -48,6 +60,7 @@ func (h *c09H) Open0(ctx context.Context) (<-chan int, error) {
 }
 
 type c09Elem struct {
+	slow    bool // sent to Slow1; over WebSocket a cancel for its id follows at once (the request is still owed its response)
 	id, req string
 	idRaw   string // "" when absent
 	param   int
@@ -61,18 +74,20 @@ func c09ID(rng *rand.Rand, class string, i int) string {
 	case "null":
 		return "null"
 	case "int":
-		return []string{fmt.Sprint(i*7 + rng.Intn(5)), fmt.Sprint(-(i*11 + 1)), fmt.Sprint(9007199254740000 + i), fmt.Sprint(i * 1000)}[rng.Intn(4)]
+		return c09Pick(0, []string{fmt.Sprint(i*7 + rng.Intn(5)), fmt.Sprint(-(i*11 + 1)), fmt.Sprint(9007199254740000 + i), fmt.Sprint(i * 1000)})
 	case "frac":
-		return []string{fmt.Sprintf("%d.5", i), fmt.Sprintf("%d.25", i+10), fmt.Sprintf("-%d.125", i), fmt.Sprintf("%de-1", i*10+5)}[rng.Intn(4)]
+		return c09Pick(1, []string{fmt.Sprintf("%d.5", i), fmt.Sprintf("%d.25", i+10), fmt.Sprintf("-%d.125", i), fmt.Sprintf("%de-1", i*10+5)})
 	case "str":
-		b, _ := json.Marshal([]string{fmt.Sprintf("id-%d", i), fmt.Sprintf("%d", i), fmt.Sprintf("q\"%d<&>", i), fmt.Sprintf("é世%d", i), strings.Repeat("x", i)}[rng.Intn(5)])
+		b, _ := json.Marshal(c09Pick(2, []string{fmt.Sprintf("id-%d", i), fmt.Sprintf("%d", i), fmt.Sprintf("q\"%d<&>", i), fmt.Sprintf("é世%d", i), strings.Repeat("x", i),
+			// characters a hand-rolled quoting routine gets wrong: controls without a short escape, DEL, non-printable runes beyond the BMP, line separators
+			fmt.Sprintf("c\x01\x1f%d", i), fmt.Sprintf("del\x7f%d", i), fmt.Sprintf("tag\U000E0001%d", i), fmt.Sprintf("ls\u2028\u2029%d", i), fmt.Sprintf("\\u00e9 / %d", i)}))
 		return string(b)
 	case "bool":
-		return []string{"true", "false"}[rng.Intn(2)]
+		return c09Pick(3, []string{"true", "false"})
 	case "obj":
-		return []string{`{}`, `{"a":1}`}[rng.Intn(2)]
+		return c09Pick(4, []string{`{}`, `{"a":1}`})
 	case "arr":
-		return []string{`[]`, `[1]`, `["x"]`}[rng.Intn(3)]
+		return c09Pick(5, []string{`[]`, `[1]`, `["x"]`})
 	}
 	panic(class)
 }
@@ -92,6 +107,9 @@ func c09Build(rng *rand.Rand, e map[string]interface{}, i int) c09Elem {
 		method, params = ns+".Void0", `null`
 	case "val":
 		method, params = ns+".Val1", fmt.Sprintf(`[%d]`, el.param)
+		if c09Pick(17, []string{"", "slow", ""}) == "slow" {
+			method, el.slow = ns+".Slow1", true
+		}
 	case "alias":
 		method, params = fmt.Sprintf("Al%d.Val", i), fmt.Sprintf(`[%d]`, el.param)
 	case "herr":
@@ -101,18 +119,18 @@ func c09Build(rng *rand.Rand, e map[string]interface{}, i int) c09Elem {
 	case "panic":
 		method, params = ns+".Panic0", `[]`
 	case "unknown":
-		method = []string{ns + ".Nope", "Nope", strings.ToLower(ns) + ".void0", ns + ".Void0 ", "E9.Void0", ns + "Void0", ns + ".void0"}[rng.Intn(7)]
+		method = c09Pick(6, []string{ns + ".Nope", "Nope", strings.ToLower(ns) + ".void0", ns + ".Void0 ", "E9.Void0", ns + "Void0", ns + ".void0"})
 		params = `[]`
 	case "nomethod":
 		method, params = "\x00none", `[]`
 	case "arity":
-		method, params = ns+".Val1", []string{`[]`, `[1,2]`, `[1,2,3]`, `null`, ""}[rng.Intn(5)]
+		method, params = ns+".Val1", c09Pick(7, []string{`[]`, `[1,2]`, `[1,2,3]`, `null`, ""})
 	case "arity0":
-		method, params = ns+".Void0", []string{`[1]`, `[1,"two"]`, `[null]`}[rng.Intn(3)]
+		method, params = ns+".Void0", c09Pick(8, []string{`[1]`, `[1,"two"]`, `[null]`})
 	case "badtype":
-		method, params = ns+".Val1", []string{`["x"]`, `[1.5]`, `[true]`, `[{}]`, `[[1]]`}[rng.Intn(5)]
+		method, params = ns+".Val1", c09Pick(9, []string{`["x"]`, `[1.5]`, `[true]`, `[{}]`, `[[1]]`})
 	case "objparams":
-		method, params = ns+".Val1", []string{`{"a":1}`, `"x"`, `7`, `{}`}[rng.Intn(4)]
+		method, params = ns+".Val1", c09Pick(10, []string{`{"a":1}`, `"x"`, `7`, `{}`})
 	}
 	fields := []string{`"jsonrpc":"2.0"`}
 	if method != "\x00none" {
@@ -126,9 +144,27 @@ func c09Build(rng *rand.Rand, e map[string]interface{}, i int) c09Elem {
 		fields = append(fields, `"id":`+el.idRaw)
 	}
 	rng.Shuffle(len(fields), func(a, b int) { fields[a], fields[b] = fields[b], fields[a] })
-	sp := func() string { return []string{"", " ", "\n", "\t ", "  "}[rng.Intn(5)] }
+	sp := func() string { return c09Pick(11, []string{"", " ", "\n", "\t ", "  "}) }
 	el.body = "{" + sp() + strings.Join(fields, sp()+","+sp()) + sp() + "}"
 	return el
+}
+
+// bodies that are not one well-formed JSON value (truncated, not JSON, trailing data after a valid request or batch)
+var c09Garbage = []string{`{"jsonrpc":`, `hello`, `[}]`, `[1,2`, `{"jsonrpc":"2.0","method":"E1.Void0","id":1`, `{'a':1}`, "\x00\x01",
+	`{"jsonrpc":"2.0","method":"E1.Void0","params":[],"id":1}}`, `[{"jsonrpc":"2.0","method":"E1.Void0","params":[],"id":1}`,
+	`{"jsonrpc":"2.0","method":"E1.Void0","params":[],"id":1} {"jsonrpc":"2.0","method":"E1.Void0","params":[],"id":2}`,
+	`{"jsonrpc":"2.0","method":"E1.Void0","params":[],"id":1} x`, `[{"jsonrpc":"2.0","method":"E1.Void0","params":[],"id":1}]]`,
+	`{"jsonrpc":"2.0","method":"E1.Void0","params":[],"id":1},`}
+var c09GarbageNext int
+
+// c09Pick cycles through the variants of one concretisation site, so that every variant is exercised once the site has been
+// visited len(vs) times (a seeded pick left rare variants to chance).
+var c09PickCtr = map[int]int{}
+
+func c09Pick(site int, vs []string) string {
+	v := vs[c09PickCtr[site]%len(vs)]
+	c09PickCtr[site]++
+	return v
 }
 
 func c09Server(n int) (*jsonrpc.RPCServer, []*c09H, *c09H) {
@@ -297,17 +333,18 @@ func c09HTTP(rng *rand.Rand, row map[string]interface{}, useHTTP bool) map[strin
 	case "empty":
 		body = ""
 	case "ws":
-		body = []string{" ", "\n\n", " \t\r\n "}[rng.Intn(3)]
+		body = c09Pick(12, []string{" ", "\n\n", " \t\r\n "})
 	case "garbage":
-		body = []string{`{"jsonrpc":`, `hello`, `[}]`, `[1,2`, `{"jsonrpc":"2.0","method":"E1.Void0","id":1`, `{'a':1}`, "\x00\x01", `{"jsonrpc":"2.0","method":"E1.Void0","params":[],"id":1}}`, `[{"jsonrpc":"2.0","method":"E1.Void0","params":[],"id":1}`}[rng.Intn(9)]
+		body = c09Garbage[c09GarbageNext%len(c09Garbage)] // every variant in turn (the row is run len(c09Garbage) times)
+		c09GarbageNext++
 	case "nonobject":
-		body = []string{`5`, `"s"`, `true`, `1.5`}[rng.Intn(4)]
+		body = c09Pick(13, []string{`5`, `"s"`, `true`, `1.5`})
 	case "nullbody":
 		body = c09Pad(rng, "null")
 	case "emptybatch":
-		body = c09Pad(rng, []string{"[]", "[ ]", "[\n]"}[rng.Intn(3)])
+		body = c09Pad(rng, c09Pick(14, []string{"[]", "[ ]", "[\n]"}))
 	case "batchbad":
-		bad := []string{`1`, `"x"`, `[]`, `true`, `{"jsonrpc":"2.0","method":5,"id":1}`, `{"jsonrpc":"2.0","method":"E1.Void0","params":[],"id":1,"meta":7}`}[rng.Intn(6)]
+		bad := c09Pick(15, []string{`1`, `"x"`, `[]`, `true`, `{"jsonrpc":"2.0","method":5,"id":1}`, `{"jsonrpc":"2.0","method":"E1.Void0","params":[],"id":1,"meta":7}`})
 		all := append(append([]string{}, parts...), bad)
 		if len(parts) > 0 && rng.Intn(2) == 0 {
 			all = append([]string{bad}, parts...)
@@ -316,7 +353,7 @@ func c09HTTP(rng *rand.Rand, row map[string]interface{}, useHTTP bool) map[strin
 	case "single":
 		body = c09Pad(rng, parts[0])
 	case "batch":
-		body = c09Pad(rng, "["+strings.Join(parts, []string{",", " , ", ",\n"}[rng.Intn(3)])+"]")
+		body = c09Pad(rng, "["+strings.Join(parts, c09Pick(16, []string{",", " , ", ",\n"}))+"]")
 	}
 	status := -1
 	var reply []byte
@@ -358,6 +395,7 @@ func c09WS(rng *rand.Rand, row map[string]interface{}) (map[string]interface{}, 
 		return nil, err
 	}
 	defer conn.Close()
+	preambleUnanswered := false
 	// history of the connection: an earlier request whose id one of this row's frames will use again is still an open
 	// subscription (ids are the peer's business; every request frame with a valid id is owed its own response)
 	if rng.Intn(2) == 0 {
@@ -375,10 +413,18 @@ func c09WS(rng *rand.Rand, row map[string]interface{}) (map[string]interface{}, 
 				return nil, err
 			}
 			for {
-				conn.SetReadDeadline(time.Now().Add(5 * time.Second))
+				conn.SetReadDeadline(time.Now().Add(2 * time.Second))
 				_, msg, err := conn.ReadMessage()
 				if err != nil {
-					return nil, fmt.Errorf("ws read (subscription preamble): %w", err)
+					// the subscription request (a request frame with a valid id) got no response: that is an observation, not a harness problem
+					preambleUnanswered = true
+					conn.Close()
+					conn, _, err = websocket.DefaultDialer.Dial("ws"+strings.TrimPrefix(ts.URL, "http"), nil)
+					if err != nil {
+						return nil, err
+					}
+					defer conn.Close()
+					break
 				}
 				var obj map[string]json.RawMessage
 				if json.Unmarshal(msg, &obj) == nil {
@@ -398,8 +444,20 @@ func c09WS(rng *rand.Rand, row map[string]interface{}) (map[string]interface{}, 
 		if err := conn.WriteMessage(mt, []byte(e.body)); err != nil {
 			return nil, err
 		}
+		if e.slow && e.idRaw != "" {
+			var probe interface{}
+			if json.Unmarshal([]byte(e.idRaw), &probe) == nil {
+				switch probe.(type) {
+				case string, float64:
+					conn.WriteMessage(websocket.TextMessage, []byte(`{"jsonrpc":"2.0","method":"xrpc.cancel","params":[`+e.idRaw+`]}`))
+				}
+			}
+		}
 	}
 	ents := []map[string]interface{}{}
+	if preambleUnanswered {
+		ents = append(ents, map[string]interface{}{"id": -1, "res": "neither", "code": 0, "v2": false, "vok": false})
+	}
 	frames := []string{}
 	readUntil := func(sentinel string) error {
 		if err := conn.WriteMessage(websocket.TextMessage, []byte(`{"jsonrpc":"2.0","method":"S.Void0","params":[],"id":"`+sentinel+`"}`)); err != nil {
@@ -463,6 +521,9 @@ func runC09(env *Env) error {
 		rr := reps
 		if row["body"] != "batch" && row["kind"] == "http" {
 			rr = reps * 4
+		}
+		if row["body"] == "garbage" {
+			rr = len(c09Garbage)
 		}
 		for k := 0; k < rr; k++ {
 			var obs map[string]interface{}
